@@ -480,6 +480,61 @@ def case_api(ctx, inp):
         elif op == "fold_set":
             chk("fold into a set", b.map(num).fold(lambda acc, x: acc | {x}, set.union, initial=set(), split_every=se).compute(),
                 set(map(num, seq)))
+        elif op == "multi_consumer":
+            # one intermediate bag feeding several results computed together (lazify must not share an iterator)
+            import dask
+            b2 = b.map(num).map(lambda v: v + 1)
+            vals = [num(x) + 1 for x in seq]
+            got = dask.compute(b2.sum(split_every=se), b2.count(split_every=se), b2.filter(lambda v: v % 2 == 0).count(),
+                               b2, b2.map(lambda v: v * 2), b2.frequencies(split_every=se), scheduler="sync")
+            chk("sum,count,filtered count,bag,mapped,frequencies computed together",
+                [got[0], got[1], got[2], list(got[3]), list(got[4]), dict(got[5])],
+                [sum(vals), len(vals), sum(1 for v in vals if v % 2 == 0), vals, [v * 2 for v in vals],
+                 dict(collections.Counter(vals))])
+        elif op == "pipeline":
+            # a random program: chain of per-partition steps, then a terminal operation
+            cur, ref = b.map(num), [num(x) for x in seq]
+            for _ in range(rng.randint(1, 5)):
+                step = rng.choice(["map", "filter", "remove", "flatten", "map_partitions", "repartition", "accumulate", "distinct_sorted"])
+                if step == "map":
+                    c = rng.randint(-2, 3)
+                    cur, ref = cur.map(lambda v, c=c: v * 2 + c), [v * 2 + c for v in ref]
+                elif step == "filter":
+                    m = rng.randint(2, 3)
+                    cur, ref = cur.filter(lambda v, m=m: v % m == 0), [v for v in ref if v % m == 0]
+                elif step == "remove":
+                    cur, ref = cur.remove(lambda v: v % 3 == 1), [v for v in ref if v % 3 != 1]
+                elif step == "flatten":
+                    cur, ref = cur.map(lambda v: [v] * (v % 3)).flatten(), [w for v in ref for w in [v] * (v % 3)]
+                elif step == "map_partitions":
+                    cur, ref = cur.map_partitions(lambda p: [v + 1 for v in p]), [v + 1 for v in ref]
+                elif step == "repartition":
+                    cur = cur.repartition(npartitions=rng.randint(1, 6))
+                elif step == "accumulate":
+                    cur, ref = cur.accumulate(operator.add), list(itertools.accumulate(ref))
+                else:
+                    cur, ref = cur.distinct().map_partitions(sorted), sorted(set(ref))
+            term = rng.choice(["list", "sum", "count", "topk", "frequencies", "fold", "take", "groupby"])
+            if term == "list":
+                chk("pipeline → list", list(cur), ref)
+            elif term == "sum":
+                chk("pipeline → sum", cur.sum(split_every=se).compute(), sum(ref))
+            elif term == "count":
+                chk("pipeline → count", cur.count(split_every=se).compute(), len(ref))
+            elif term == "topk":
+                chk("pipeline → topk", list(cur.topk(3, split_every=se)), sorted(ref, reverse=True)[:3])
+            elif term == "frequencies":
+                chk("pipeline → frequencies", dict(cur.frequencies(split_every=se)), dict(collections.Counter(ref)))
+            elif term == "fold":
+                chk("pipeline → fold", cur.fold(operator.add, initial=0, split_every=se).compute(), sum(ref))
+            elif term == "take":
+                chk("pipeline → take", list(cur.take(4, npartitions=-1, warn=False)), ref[:4])
+            else:
+                want = collections.defaultdict(list)
+                for v in ref:
+                    want[v % 3].append(v)
+                chk("pipeline → groupby", {k: sorted(v) for k, v in cur.groupby(lambda v: v % 3, shuffle="tasks", max_branch=inp.get("mb"))},
+                    {k: sorted(v) for k, v in want.items()})
         elif op == "reduction":
             chk("reduction(sum, sum)", b.map(num).reduction(sum, sum, split_every=se).compute(), sum(map(num, seq)))
             chk("reduction(list, concat)", b.reduction(list, lambda xs: [y for x in xs for y in x], split_every=se).compute(), seq)
@@ -527,7 +582,8 @@ def gen_parts(rng, maxparts=9, maxlen=5, lo=-4, hi=9):
 
 
 API_OPS = ["map", "starmap", "filter", "map_partitions", "pluck", "flatten", "distinct", "frequencies", "topk", "stats",
-           "foldby", "groupby", "join", "accumulate", "take", "repartition", "from_sequence", "fold_set", "reduction"]
+           "foldby", "groupby", "join", "accumulate", "take", "repartition", "from_sequence", "fold_set", "reduction",
+           "multi_consumer", "pipeline", "pipeline", "pipeline"]
 
 
 def generate(ctx):
